@@ -12,10 +12,12 @@ import z3
 
 from dv.spec import And, Or, Not, Implies, If
 from dv.pyunit import PyUnit
+from dv.pyfe import Callee
 
 SERVES = ("C14",)
 FILE = "Cython/Compiler/Optimize.py"
 FIELDS = {"obj:Loop": {"target": "ref:obj:Node", "body": "ref:obj:Node", "pos": "any"},
+          "obj:Call": {"arg_tuple": "ref:obj:Node", "pos": "any"},
           "obj:Node": {"is_sequence_constructor": "bool", "args": "ref:list", "is_starred": "bool", "type": "ref:obj:Type", "pos": "any"},
           "obj:Type": {"is_pyobject": "bool", "is_int": "bool"}}
 
@@ -35,17 +37,52 @@ def _local(e, name):
     return v
 
 
+def _select_enum(fn):
+    """the decision prefix of _transform_enumerate_iteration (leading assignments / guard-ifs with calls only to len() / error()); roles: the two
+    locals bound by the unpacking `<a>, <b> = <targets>`"""
+    import ast
+    from dv.pyunit import guard_prefix
+    from dv.pyfe import StaleContract
+    stmts = guard_prefix(fn, allowed_calls=("len", "error"))
+    unpacks = [n for s in stmts for n in ast.walk(s) if isinstance(n, ast.Assign) and len(n.targets) == 1 and isinstance(n.targets[0], ast.Tuple)
+               and len(n.targets[0].elts) == 2 and all(isinstance(x, ast.Name) for x in n.targets[0].elts) and not isinstance(n.value, ast.Tuple)]
+    if len(unpacks) != 1:
+        raise StaleContract("the decision prefix does not unpack the loop target into exactly two locals")
+    return stmts, {"first": unpacks[0].targets[0].elts[0].id, "second": unpacks[0].targets[0].elts[1].id}
+
+
 def _post_enum(e):
     if "$fell_through" not in e.vars:
         return z3.BoolVal(True)                 # `return node`: the loop is left alone
-    return _plain(e, _local(e, "enumerate_target").addr, _local(e, "iterable_target").addr)
+    return _plain(e, _local(e, e.roles["first"]).addr, _local(e, e.roles["second"]).addr)
+
+
+def _select_dict(fn):
+    """the target selection of _transform_dict_iteration, selected structurally: from the first top-level statement that assigns None to a local up to
+    the first later top-level `if` whose test mentions the parameters `keys` / `values`; roles: the two locals bound by the 2-tuple unpacking inside it"""
+    import ast
+    from dv.pyfe import StaleContract
+    body = list(fn.body)
+    start = next((i for i, s_ in enumerate(body) if isinstance(s_, ast.Assign) and isinstance(s_.value, ast.Constant) and s_.value.value is None), None)
+    if start is None:
+        raise StaleContract("no top-level `<local> = None` statement in _transform_dict_iteration")
+    end = next((j for j in range(start + 1, len(body)) if isinstance(body[j], ast.If)
+                and any(isinstance(n, ast.Name) and n.id in ("keys", "values") for n in ast.walk(body[j].test))), None)
+    if end is None:
+        raise StaleContract("no top-level `if` on keys / values after the None assignments")
+    stmts = body[start:end + 1]
+    unpacks = [n for s_ in stmts for n in ast.walk(s_) if isinstance(n, ast.Assign) and len(n.targets) == 1 and isinstance(n.targets[0], ast.Tuple)
+               and len(n.targets[0].elts) == 2 and all(isinstance(x, ast.Name) for x in n.targets[0].elts) and not isinstance(n.value, ast.Tuple)]
+    if len(unpacks) != 1:
+        raise StaleContract("the target selection does not unpack the loop target into exactly two locals")
+    return stmts, {"first": unpacks[0].targets[0].elts[0].id, "second": unpacks[0].targets[0].elts[1].id}
 
 
 def _post_dict(e):
     if "$fell_through" not in e.vars:
         return z3.BoolVal(True)                 # `return node`: the loop is left alone
-    kt = _local(e, "key_target")
-    vt = _local(e, "value_target")
+    kt = _local(e, e.roles["first"])
+    vt = _local(e, e.roles["second"])
     from dv.pyfe import PRef
     if not (isinstance(kt, PRef) and isinstance(vt, PRef)):
         return z3.BoolVal(True)                 # one target only (keys or values), a tuple target, or `return node`
@@ -92,19 +129,22 @@ print(bad)
 def units(tier):
     common = {"fields": FIELDS, "merge": False, "dynamic_classes": (), "elem_kind": {"list": "ref:obj:Node"}}
     u1 = PyUnit("Optimize.IterationTransform._transform_enumerate_iteration[targets]", {"C14": None}, FILE, "IterationTransform._transform_enumerate_iteration",
-                [("self", "ref:obj:Transform"), ("node", "ref:obj:Loop")],
-                requires=[("the target's items form a list", lambda e: e.h0.len(e.h0.fld("args", e.h0.fld("target", e.node))) >= 0)],
+                [("self", "ref:obj:Transform"), ("node", "ref:obj:Loop"), ("enumerate_function", "ref:obj:Call")],
+                requires=[("the target's items and enumerate()'s arguments form lists",
+                           lambda e: And(e.h0.len(e.h0.fld("args", e.h0.fld("target", e.node))) >= 0,
+                                         e.h0.len(e.h0.fld("args", e.h0.fld("arg_tuple", e.enumerate_function))) >= 0))],
                 ensures=[("the target is split only into two plain targets", _post_enum)],
+                callees={"error": Callee("error", ["pos", "message"], result_kind="none")},
                 native=_native, search=lambda seed, ob: _native({}, ob),
-                options=dict(common, fragment={"start": r"^if not node\.target\.is_sequence_constructor:", "end": r"^enumerate_target, iterable_target = "}),
-                subject={"fragment": "from `if not node.target.is_sequence_constructor:` to the unpacking `enumerate_target, iterable_target = targets`"})
+                options=dict(common, fragment={"select": _select_enum}),
+                subject={"fragment": "the decision prefix of the function (structurally selected: leading assignments and guard-ifs, up to the first statement that builds nodes)"})
     u2 = PyUnit("Optimize.IterationTransform._transform_dict_iteration[targets]", {"C14": None}, FILE, "IterationTransform._transform_dict_iteration",
                 [("self", "ref:obj:Transform"), ("node", "ref:obj:Loop"), ("keys", "bool"), ("values", "bool")],
                 requires=[("the target's items form a list", lambda e: e.h0.len(e.h0.fld("args", e.h0.fld("target", e.node))) >= 0)],
                 ensures=[("the target is split only into two plain targets", _post_dict)],
                 native=_native, search=lambda seed, ob: _native({}, ob),
-                options=dict(common, fragment={"start": r"^key_target = value_target = tuple_target = None$", "end": r"^if keys and values:"}),
-                subject={"fragment": "from `key_target = value_target = tuple_target = None` to the end of the `if keys and values: ... elif ... else` statement"})
+                options=dict(common, fragment={"select": _select_dict}),
+                subject={"fragment": "the target selection (structurally selected: from the first `<local> = None` statement to the `if` on keys / values)"})
     return [u1, u2]
 
 
